@@ -12,6 +12,11 @@ CLAIMED = {
         text="TLC proves conservation, result<=>consumed and no-stuck-acquirer on the abstract semaphore spec for 3 actors; every recorded history of the real counting/binary/sliding semaphores (pika tasks + OS threads, hook-perturbed schedules) must be a behaviour of that spec, which settles 'for every schedule explored' rather than the single outcome a unit test asserts",
         note="sequential consistency in the model; histories are sampled (seeded), not exhaustive; timer wake-ups assumed at most 1 ms early",
         design="5/C08"),
+    "C14": dict(
+        technique="TLA+ abstract spec StopAbs (handle algebra + request_stop/callback protocol) model-checked by TLC + TLC trace validation of sequential and concurrent histories from the real stop_source/stop_token/stop_callback",
+        text="TLC proves one-winner, callback-at-most-once, no-run-after-destructor, destructor-waits, source-count bookkeeping and registered-callback-runs (fair) on the abstract spec, and shows each named deviation violates them; recorded histories of the real objects (handle copy/move/assign/swap sequences; concurrent request_stop / callback construction / destruction incl. from inside callbacks, on pika tasks and OS threads, with delays injected at the st.* hooks between load and CAS) must be behaviours of the spec",
+        note="sequential consistency; sampled schedules widened by hook delays, not exhaustive; handle objects themselves are used from one thread at a time (documented precondition)",
+        design="5/C14"),
 }
 
 NOT_YET = {}
